@@ -201,6 +201,30 @@ class Driver:
         return out
 
 
+def run_child(mod: str, func: str, payload, x64: bool = False, timeout: int = 3600):
+    """Call harness.<mod>.<func>(payload) in a fresh interpreter; x64 switches JAX to float64."""
+    import pickle
+    env = dict(os.environ)
+    env["JAX_ENABLE_X64"] = "1" if x64 else "0"
+    env["PYTHONPATH"] = str(VERIF) + os.pathsep + env.get("PYTHONPATH", "")
+    env.setdefault("JAX_PLATFORMS", "cpu")
+    env["PYTHONWARNINGS"] = "ignore"
+    p = subprocess.run([sys.executable, "-m", "harness.child"], input=pickle.dumps((mod, func, payload)),
+                       capture_output=True, cwd=VERIF, env=env, timeout=timeout)
+    if p.returncode != 0:
+        raise InfraError(f"child {mod}.{func} failed ({p.returncode}): {p.stderr.decode(errors='replace')[-3000:]}")
+    return pickle.loads(p.stdout)
+
+
+def run_children(mod: str, func: str, payloads: list, x64: bool = False, workers: int = 8, timeout: int = 3600):
+    """Several children in parallel (one per payload chunk)."""
+    from concurrent.futures import ThreadPoolExecutor
+    if not payloads:
+        return []
+    with ThreadPoolExecutor(max_workers=max(1, min(workers, len(payloads)))) as ex:
+        return list(ex.map(lambda pl: run_child(mod, func, pl, x64=x64, timeout=timeout), payloads))
+
+
 # ----------------------------------------------------------------------------
 # findings, replay, evidence
 # ----------------------------------------------------------------------------
